@@ -95,7 +95,7 @@ func DecodePostgres(data []byte) (PostgresRow, error) {
 
 	// pid
 	pos = bytes.IndexByte(data, pidInfoCloseBrace)
-	if pos < 0 {
+	if pos < 1 {
 		return row, fmt.Errorf("pid is not found")
 	}
 
@@ -124,7 +124,7 @@ func DecodePostgres(data []byte) (PostgresRow, error) {
 	}
 
 	pos = bytes.IndexByte(data, credentialsDelimiter)
-	if pos < 0 {
+	if pos < 0 || pos < openPos {
 		return row, fmt.Errorf("client end is not found")
 	}
 
@@ -138,7 +138,7 @@ func DecodePostgres(data []byte) (PostgresRow, error) {
 	}
 
 	pos = bytes.IndexByte(data, credentialsDelimiter)
-	if pos < 0 {
+	if pos < 0 || pos < openPos {
 		return row, fmt.Errorf("db end is not found")
 	}
 
@@ -152,7 +152,7 @@ func DecodePostgres(data []byte) (PostgresRow, error) {
 	}
 
 	pos = bytes.IndexByte(data, logDelimiter)
-	if pos < 0 {
+	if pos < 0 || pos < openPos {
 		return row, fmt.Errorf("user end is not found")
 	}
 
@@ -161,7 +161,7 @@ func DecodePostgres(data []byte) (PostgresRow, error) {
 
 	// log
 	pos = bytes.IndexByte(data, logDelimiter)
-	if pos < 0 {
+	if pos < 0 || pos+2 > len(data) {
 		return row, fmt.Errorf("log is not found")
 	}
 
